@@ -1,3 +1,4 @@
+use std::cell::Cell;
 use std::rc::Rc;
 use std::str::FromStr;
 
@@ -10,16 +11,33 @@ use crate::{
     selection::Get,
 };
 
+// A parsed selection may parse a selection again; a text that (directly or not) parses itself would never end.
+const MAX_NESTED_PARSE_SELECTIONS: usize = 32;
+thread_local! {
+    static NESTED_PARSE_SELECTIONS: Cell<usize> = const { Cell::new(0) };
+}
+
 pub fn get() -> FunctionDefinitions {
     FunctionDefinitions::new("parse_selection", 1, 1, |args| {
         struct Impl(Vec<Rc<dyn Get>>);
         impl Get for Impl {
             fn get(&self, value: &Context) -> Option<JsonValue> {
                 match self.0.apply(value, 0) {
-                    Some(JsonValue::String(str)) => match Selection::from_str(str.as_str()) {
-                        Ok(selection) => selection.get(value),
-                        _ => None,
-                    },
+                    Some(JsonValue::String(str)) => {
+                        let nested = NESTED_PARSE_SELECTIONS.with(|n| n.get());
+                        if nested >= MAX_NESTED_PARSE_SELECTIONS {
+                            return None;
+                        }
+                        match Selection::from_str(str.as_str()) {
+                            Ok(selection) => {
+                                NESTED_PARSE_SELECTIONS.with(|n| n.set(nested + 1));
+                                let result = selection.get(value);
+                                NESTED_PARSE_SELECTIONS.with(|n| n.set(nested));
+                                result
+                            }
+                            _ => None,
+                        }
+                    }
                     _ => None,
                 }
             }
@@ -27,6 +45,9 @@ pub fn get() -> FunctionDefinitions {
         Rc::new(Impl(args))
     })
     .add_description_line("Parse a string into a new selection.")
+    .add_description_line(
+        "A selection that parse a selection again can do so up to 32 levels deep, beyond that nothing is returned.",
+    )
     .add_example(
         Example::new()
             .add_argument("\"(+ 10 11)\"")
